@@ -104,6 +104,27 @@ def _run_retry(cases, workers):
     return res
 
 
+def _probe_db_row_per_flow_set() -> bool:
+    """(C29's flag) does _load_historical_outputs create the task_states / task_outputs rows of a proxy whose flows
+    overlap an existing row of the instance without being equal to it?  Probed on the real
+    TaskPool._load_historical_outputs with a stub pool object."""
+    from unittest.mock import MagicMock
+    from cylc.flow.cycling.integer import IntegerPoint
+    from cylc.flow.cycling.loader import INTEGER_CYCLING_TYPE
+    from cylc.flow.id import Tokens
+    from cylc.flow.task_pool import TaskPool
+    from cylc.flow.task_proxy import TaskProxy
+    from cylc.flow.taskdef import TaskDef
+
+    tdef = TaskDef('a', {'completion': None, 'outputs': {}}, IntegerPoint('1'), INTEGER_CYCLING_TYPE)
+    tdef.set_required_output('succeeded', True)
+    itask = TaskProxy(Tokens('~u/w'), tdef, IntegerPoint('1'), {1, 2}, transient=True)
+    pool = MagicMock()
+    pool.workflow_db_mgr.pri_dao.select_task_outputs.return_value = {'{"submitted": "submitted"}': {1}}
+    TaskPool._load_historical_outputs(pool, itask)
+    return bool(pool.db_add_new_flow_rows.called)
+
+
 def _case(cid, flow, ops):
     return {'id': cid, 'flow': flow, 'seed': 0, 'opts': {}, 'policy': {'obs_db': True}, 'ops': ops, 'kind': 'cmdrm'}
 
@@ -151,10 +172,15 @@ class C30(SchedProp):
             _case('c30-probe-commits', _AB, [_rm(['1/a'])]),
             # is the history of an id that is active in another flow only erased?
             _case('c30-probe-else', _AB, _W_ELSE),
-            # (C28's flag; the model carries the group trigger) are all prerequisites on a live parent forced?
+            # (C28's flags; the model carries the group trigger) are all prerequisites on a live parent forced?
             _case('c30-probe-trig', _AB, [_L] + _job('1/a', msgs=('started',)) + [_L, _trig(['1/a', '1/b'])]),
+            # ... and is an object that is not the pooled proxy of its instance put on the trigger-now list?
+            _case('c30-probe-unpooled', _flow('            d\n            d[^]:x => e', fcp=2).replace(
+                '            default run length = PT0S\n',
+                '            default run length = PT0S\n    [[d]]\n        [[[outputs]]]\n            x = xx\n'),
+                [_L] + _job('1/d', msgs=('started',)) + [_L, _trig(['1/d', '1/e'], flow=['new'])]),
         ]
-        raws = _run_retry(probes, 3)
+        raws = _run_retry(probes, 4)
         for raw in raws:
             if 'error' in raw:
                 raise Infra(f'C30 probe run failed: {raw["error"][-400:]}')
@@ -164,7 +190,10 @@ class C30(SchedProp):
         always_db = not any(r[:2] == [1, 'a'] and 1 in r[2] for r in rows)
         b = [t for t in raws[2]['obs'][-1]['xt']['pool'] if (t['p'], t['n']) == (1, 'b')]
         any_output = bool(b) and any(a[3] != 0 for pre in b[0]['pre'] for a in pre if a[:3] == [1, 'a', 'succeeded'])
-        self.flags = {'commits': commits, 'always_db': always_db, 'any_output': any_output}
+        unpooled = [1, 'e'] in raws[3]['obs'][-1]['xt']['now']
+        row_per_flow_set = _probe_db_row_per_flow_set()
+        self.flags = {'commits': commits, 'always_db': always_db, 'any_output': any_output,
+                      'trigger_unpooled': unpooled, 'db_row_per_flow_set': row_per_flow_set}
         lb = {True: 'true', False: 'false'}
         return {'RmFlags.lean': (
             '/- GENERATED by harness/props/c30.py translate() from the live source. Do not edit. -/\n'
@@ -177,6 +206,11 @@ class C30(SchedProp):
             f'def alwaysDb : Bool := {lb[always_db]}\n'
             '/-- (C28) `cylc trigger` forces every prerequisite on a live group-start member that has completed some output -/\n'
             f'def anyOutput : Bool := {lb[any_output]}\n'
+            '/-- (C28) `cylc trigger` triggers the object `_set_prereqs_tdef` hands back even when it is not the pooled proxy -/\n'
+            f'def triggerUnpooled : Bool := {lb[unpooled]}\n'
+            '/-- (C29) `_load_historical_outputs` inserts the rows of a proxy whose flows overlap an existing row of the\n'
+            'instance without being equal to it -/\n'
+            f'def dbRowPerFlowSet : Bool := {lb[row_per_flow_set]}\n'
             'end CylcModel.RmFlags\n')}
 
     def corpus(self):
